@@ -182,6 +182,9 @@ def run_round_trip(task):
             return res
 
         def fn(ctx: Ctx):
+            # canonical tokens: equal values print alike (decided by the solver), so that a later state can be textually
+            # identical to an earlier one; costs a fork per pair of values, hence only for a few small tasks
+            ctx.canonical_tags = bool(task.get("canonical"))
             world = lib.World(text, G.OBJECTS)
             state, keys = seqsem.symbolic_state(world, comp, atoms, fluents, is_init=True)
             return pipeline(task, world, state, symbolic=True)
@@ -280,6 +283,13 @@ def tasks_for(tier, seed):
                           "extra_fluents": EXOTIC_FLUENTS[: 1 + i % 3], "extra_atoms": 1 + i % 2,
                           "cap": 8 if tier == "quick" else 10, "max_paths": 800 if tier == "quick" else 6000,
                           "sym_atoms": 6 if tier == "quick" else 8})
+    # trajectories that come back to a state they have been in (token-identical text of two states)
+    for p in ([("take", ["o1", "o2"]), ("drop", ["o1", "o2"]), ("take", ["o1", "o2"])],
+              [("take", ["o1", "o2"]), ("drop", ["o1", "o2"]), ("flag", ["o1"])],
+              [("flag", ["o2"]), ("take", ["o1", "o3"]), ("drop", ["o1", "o3"]), ("charge", ["o1"])]):
+        for with_problem in (True, False):
+            tasks.append({"kind": "single", "plan": p, "allow": True, "with_problem": with_problem, "extra_fluents": EXOTIC_FLUENTS[:1],
+                          "extra_atoms": 0, "cap": 8, "max_paths": 1500, "sym_atoms": 3, "canonical": True})
     # two agents making textually identical calls in one step (the serialization does not say who acts: only the slot does)
     twins_ = [[("flag", ["o1"]), ("flag", ["o1"]), None], [None, ("charge", ["o2"]), ("charge", ["o2"])],
               [("sweep", ["o3"]), None, ("sweep", ["o3"])], [("take", ["o1", "o2"]), ("take", ["o1", "o2"]), ("take", ["o1", "o2"])]]
